@@ -34,6 +34,13 @@ type absState struct {
 	epoch  map[string]int  // stores seen per address key (loads of a location are the same value only between stores)
 	Blocks []*ssa.BasicBlock
 	Events []absEvent
+	Conds  []absCond // every branch taken on this path, in order
+}
+
+// absCond: the condition of an If and the successor the path took.
+type absCond struct {
+	If   *ssa.If
+	Succ int
 }
 
 type absEvent struct {
@@ -67,6 +74,7 @@ func (s *absState) clone() *absState {
 	n.rels = append([]string(nil), s.rels...)
 	n.Blocks = append([]*ssa.BasicBlock(nil), s.Blocks...)
 	n.Events = append([]absEvent(nil), s.Events...)
+	n.Conds = append([]absCond(nil), s.Conds...)
 	return n
 }
 
@@ -501,6 +509,7 @@ type absWalker struct {
 	OnInstr  func(s *absState, in ssa.Instruction)
 	OnEnd    func(s *absState, last ssa.Instruction)
 	Stop     func(in ssa.Instruction) bool // optional: treat this instruction as the end of the region
+	LoopHead *ssa.BasicBlock               // optional: a path that (re-)enters this block ends there (one iteration of a loop body)
 }
 
 func (w *absWalker) walk(s *absState, b *ssa.BasicBlock, start int) {
@@ -555,10 +564,15 @@ func (w *absWalker) walk(s *absState, b *ssa.BasicBlock, start int) {
 			return
 		case *ssa.If:
 			ts, fs := s.branch(x.Cond)
+			if ts != nil && fs != nil && ts == fs {
+				fs = ts.clone()
+			}
 			if ts != nil {
+				ts.Conds = append(ts.Conds, absCond{x, 0})
 				w.enter(ts, b, b.Succs[0])
 			}
 			if fs != nil {
+				fs.Conds = append(fs.Conds, absCond{x, 1})
 				w.enter(fs, b, b.Succs[1])
 			}
 			return
@@ -584,6 +598,10 @@ func (w *absWalker) end(s *absState, last ssa.Instruction) {
 }
 
 func (w *absWalker) enter(s *absState, from, to *ssa.BasicBlock) {
+	if w.LoopHead != nil && to == w.LoopHead {
+		w.end(s, from.Instrs[len(from.Instrs)-1])
+		return
+	}
 	for _, b := range s.Blocks {
 		if b == to {
 			w.Looped = true
